@@ -300,6 +300,12 @@ fn m(items: &[Item], s: &[char], ctx: &mut Ctx) -> bool {
                 *ctx = c2;
                 return true;
             }
+            // a line that starts with '/' IS the party-identifier / account line (the library's documented reading of
+            // `[/34x]` and `[/1!a][/34x]` in front of free-text lines): it cannot be skipped and re-read as text
+            let slash_led = matches!(sub.first(), Some(Item::Lit('/'))) || matches!(sub.first(), Some(Item::Named(n)) if n == "PID");
+            if slash_led && s.first() == Some(&'/') && sub.iter().any(|i| matches!(i, Item::Lit('\n'))) {
+                return false;
+            }
             m(rest_items, s, ctx)
         }
         Item::Alt(words) => words.iter().any(|w| {
